@@ -108,6 +108,7 @@ func obsCase(e error, refs []error) SX {
 		L(Sym("acc0"), optSX(func() SX { return accSX(e) })),
 		L(Sym("acc1"), onHop(h1, ok1, accSX)),
 		L(Sym("acc2"), onHop(h2, ok2, accSX)),
+		L(Sym("compat"), optSX(func() SX { return compatSX(e, refs) })),
 		L(Sym("isany"), optSX(func() SX { return Bool(errors.IsAny(e, refs...)) })),
 		L(Sym("isanyhalf"), optSX(func() SX { return Bool(errors.IsAny(e, refs[:len(refs)/2]...)) })),
 	)
